@@ -207,6 +207,7 @@ func execIo(ops []Op) []string {
 	case r := <-done:
 		return r
 	case <-hangAfter(60 * time.Second):
+		noteHang()
 		return []string{"X timeout => the case did not finish in 60 s"}
 	}
 }
